@@ -1,13 +1,15 @@
-//! D/F monitor: one instruction execution = one observed event (name, pre, post), judged by the
-//! frame table (always) and by the reference model (when the instruction fires).
+//! D/F monitor: one interpreter step = one observed event (item, pre, post), judged by the
+//! frame table (always) and by the reference model (when the instruction fires); literal, list
+//! and name steps are judged by the documented interpreter rules.
 
 use crate::frame::{check_frame, frame};
-use crate::mon::{panic_sig, step_named, StepObs};
+use crate::mon::{observed_step, panic_sig, StepObs};
 use crate::out::Rec;
 use crate::refm::check_fired;
-use crate::snap::Snap;
+use crate::snap::{SItem, Snap};
 use pushr::push::instructions::{InstructionCache, InstructionSet};
-use pushr::push::state::PushState;
+use pushr::push::item::Item;
+use pushr::push::state::{PushState, GRAPH_BUFFER_SIZE};
 
 #[derive(Clone, Copy)]
 pub struct Judge {
@@ -16,41 +18,128 @@ pub struct Judge {
 }
 
 pub struct StepEvent {
+    /// state before the step, WITHOUT the item that was executed
     pub pre: Snap,
+    pub item: Option<SItem>,
     pub post: Option<Snap>,
     pub obs: StepObs,
     pub fired: Option<bool>,
+    pub done: bool,
 }
 
-/// Execute `name` on `state` and judge the step. Violations are recorded under `prop` with
-/// signature `<name>|<class>`.
-pub fn judged_step(prop: &str, name: &str, state: &mut PushState, is: &mut InstructionSet, cache: &InstructionCache, rec: &mut Rec, j: Judge, ctxinfo: &str) -> StepEvent {
-    let pre = Snap::of(state);
-    let obs = step_named(state, is, cache, name);
+/// expected effect of executing a non-instruction item (documented interpreter rules)
+pub fn plain_step_expect(pre: &Snap, item: &SItem) -> Snap {
+    let mut e = pre.clone();
+    match item {
+        SItem::Bool(b) => e.b.insert(0, *b),
+        SItem::Int(i) => e.i.insert(0, *i),
+        SItem::Float(f) => e.f.insert(0, *f),
+        SItem::Index(c, d) => e.x.insert(0, (*c, *d)),
+        SItem::BV(v) => e.bv.insert(0, v.clone()),
+        SItem::IV(v) => e.iv.insert(0, v.clone()),
+        SItem::FV(v) => e.fv.insert(0, v.clone()),
+        SItem::Graph(g) => {
+            if e.g.len() < GRAPH_BUFFER_SIZE {
+                e.g.insert(0, g.clone())
+            }
+        }
+        SItem::List(v) => {
+            // elements are pushed so that the first element is on top
+            for x in v.iter().rev() {
+                e.e.insert(0, x.clone());
+            }
+        }
+        SItem::Name(n) => {
+            if e.q {
+                e.n.insert(0, n.clone());
+                e.q = false;
+            } else if let Some(b) = e.nb.get(n) {
+                let b = b.clone();
+                e.e.insert(0, b);
+            } else {
+                e.n.insert(0, n.clone());
+            }
+        }
+        SItem::Instr(_) => {}
+    }
+    e
+}
+
+/// Take one interpreter step on whatever is on top of EXEC and judge it. Violations are
+/// recorded under `prop` with signature `<name-or-kind>|<class>`.
+pub fn judged_exec_step(prop: &str, state: &mut PushState, is: &mut InstructionSet, cache: &InstructionCache, rec: &mut Rec, j: Judge, ctxinfo: &str) -> StepEvent {
+    let mut pre = Snap::of(state);
+    let item = if pre.e.is_empty() { None } else { Some(pre.e.remove(0)) };
+    let obs = observed_step(state, is, cache);
+    let label = match &item {
+        Some(SItem::Instr(n)) => n.clone(),
+        Some(SItem::List(_)) => "<list>".to_string(),
+        Some(SItem::Name(_)) => "<name>".to_string(),
+        Some(_) => "<literal>".to_string(),
+        None => "<empty-exec>".to_string(),
+    };
     if let Some(p) = &obs.panic {
-        rec.violation(prop, &format!("{}|panic|{}", name, panic_sig(p)), &format!("{} panicked: {} ; pre-state: {} ; {}", name, p, pre.summary(), ctxinfo), "");
-        return StepEvent { pre, post: None, obs, fired: None };
+        rec.violation(prop, &format!("{}|panic|{}", label, panic_sig(p)), &format!("{} panicked: {} ; pre-state: {} ; {}", label, p, pre.summary(), ctxinfo), "");
+        return StepEvent { pre, item, post: None, obs, fired: None, done: false };
     }
     let post = Snap::of(state);
     let mut fired = None;
-    match frame(name) {
+    let done = obs.done;
+    match &item {
         None => {
-            rec.violation(prop, &format!("{}|no-frame-row", name), &format!("registered instruction {} has no frame row (harness incomplete or new instruction)", name), "");
+            if !done || post != pre {
+                rec.violation(prop, "<empty-exec>|mismatch", &format!("a step on an empty EXEC stack must report completion and change nothing: done={} ; {}", done, pre.diff_text(&post)), "");
+            }
         }
-        Some(fr) => {
-            let f = fr.fires(&pre);
-            fired = Some(f);
-            if j.frame {
-                if let Err((class, text)) = check_frame(name, &fr, &pre, &post) {
-                    rec.violation(prop, &format!("{}|{}", name, class), &format!("{} ; pre-state: {} ; {}", text, pre.summary(), ctxinfo), "");
+        Some(SItem::Instr(name)) => {
+            if done {
+                rec.violation(prop, &format!("{}|reported-done", name), "step() reported completion although it executed an item", "");
+            }
+            if name.starts_with("VERIF.") {
+                // harness-registered probe instructions do not change the state
+            } else {
+                match frame(name) {
+                    None => {
+                        if is.is_instruction(name) {
+                            rec.violation(prop, &format!("{}|no-frame-row", name), &format!("registered instruction {} has no frame row (harness incomplete or new instruction)", name), "");
+                        } else if post != pre {
+                            rec.violation(prop, "<unknown-instruction>|mismatch", &format!("unknown instruction {} must be ignored: {}", name, pre.diff_text(&post)), "");
+                        }
+                    }
+                    Some(fr) => {
+                        let f = fr.fires(&pre);
+                        fired = Some(f);
+                        if j.frame {
+                            if let Err((class, text)) = check_frame(name, &fr, &pre, &post) {
+                                rec.violation(prop, &format!("{}|{}", name, class), &format!("{} ; pre-state: {} ; {}", text, pre.summary(), ctxinfo), "");
+                            }
+                        }
+                        if f && j.reference {
+                            if let Err((class, text)) = check_fired(name, &pre, &post) {
+                                rec.violation(prop, &format!("{}|{}", name, class), &format!("{}: {} ; pre-state: {} ; {}", name, text, pre.summary(), ctxinfo), "");
+                            }
+                        }
+                    }
                 }
             }
-            if f && j.reference {
-                if let Err((class, text)) = check_fired(name, &pre, &post) {
-                    rec.violation(prop, &format!("{}|{}", name, class), &format!("{}: {} ; pre-state: {} ; {}", name, text, pre.summary(), ctxinfo), "");
+        }
+        Some(it) => {
+            if done {
+                rec.violation(prop, &format!("{}|reported-done", label), "step() reported completion although it executed an item", "");
+            }
+            if j.reference {
+                let exp = plain_step_expect(&pre, it);
+                if exp != post {
+                    rec.violation(prop, &format!("{}|mismatch", label), &format!("executing {}: {} ; pre-state: {} ; {}", it, exp.diff_text(&post), pre.summary(), ctxinfo), "");
                 }
             }
         }
     }
-    StepEvent { pre, post: Some(post), obs, fired }
+    StepEvent { pre, item, post: Some(post), obs, fired, done }
+}
+
+/// Execute instruction `name` on `state` (put it on EXEC, take one step) and judge the step.
+pub fn judged_step(prop: &str, name: &str, state: &mut PushState, is: &mut InstructionSet, cache: &InstructionCache, rec: &mut Rec, j: Judge, ctxinfo: &str) -> StepEvent {
+    state.exec_stack.push(Item::instruction(name.to_string()));
+    judged_exec_step(prop, state, is, cache, rec, j, ctxinfo)
 }
